@@ -12,6 +12,8 @@ import GgrsModel.Proofs.Session
 import GgrsModel.Proofs.Lockstep
 import GgrsModel.Proofs.DelayStep
 import GgrsModel.Proofs.LockstepNet
+import GgrsModel.Proofs.EntryPoint
+import GgrsModel.Proofs.DropWorld
 
 namespace Ggrs
 
@@ -265,5 +267,33 @@ theorem C04_lockstep_delay (x y : P2P × TLState) (h0 : LkNetInv x) (hrun : DLkS
   intro now s' reqs' hadv
   obtain ⟨gh', h', hcase, _⟩ := lockstepTick_spec y.1 s' gh y.2 now reqs' h hadv
   exact ⟨gh', h', hcase⟩
+
+/-- **C04 at the real entry point (lockstep).** After any run of lockstep calls, `set_input_delay`
+calls and arrivals, a successful call of `advance_frame_core` itself (desync bookkeeping, disconnect
+bookkeeping, `advance_lockstep_frame`, wait recommendation) made while no running endpoint reports a
+disconnected player returns nothing or exactly one AdvanceFrame — never a save or a load — and the
+lockstep invariants hold again with the game's timeline having executed it. -/
+theorem C04_entry_point_lockstep (x y : P2P × TLState) (h0 : LkNetInv x) (hrun : DLkStar x y)
+    (now : Nat) (s' : P2P) (reqs' : List Request)
+    (hmp : (y.1.maxPrediction == 0) = true)
+    (hng : ∀ s1, y.1.desyncPhase now = .ok s1 → NoGossip s1)
+    (hcall : y.1.advanceFrameCore now = .ok (s', .ok reqs')) :
+    LkNetInv (s', execReqs y.2 reqs') ∧ (reqs' = [] ∨ ∃ ins, reqs' = [.advance ins]) :=
+  lockstep_call y.1 s' y.2 now reqs' (LkNetInv_drun x y h0 hrun) hmp hng hcall
+
+/-- **C04, the window with dropped players (non-sparse rollback sessions, drops detected locally).**
+After any run of arrivals, calls, accepted `disconnect_player` calls and Disconnected events, a
+call that simulates a new frame `c` leaves the stream of every player that is still connected with
+`c - (|vals_p| - 1) ≤ max_prediction`: the session never runs more than `max_prediction` frames
+beyond the newest frame for which it holds the real input of everybody who is still there (a
+dropped player no longer holds the session back, and no longer counts). -/
+theorem C04_window_drops (x y : P2P × TLState) (h0 : XInv x) (hrun : XStar x y)
+    (now : Nat) (s' : P2P) (reqs' : List Request) (hadv : y.1.advanceRollbackFrame now [] = .ok (s', reqs'))
+    (hnew : s'.sync.currentFrame ≠ y.1.sync.currentFrame) :
+    ∃ gh', SessInvD s' gh' y.2 reqs' s'.localConnectStatus ∧ ∀ p, p < y.1.sync.queues.length →
+      (rget y.1.localConnectStatus p).disconnected = false →
+      y.1.sync.currentFrame - ((gh'.specs p).vals.length - 1 : Int) ≤ y.1.maxPrediction := by
+  obtain ⟨gh, st0, h⟩ := XInv_run x y h0 hrun
+  exact window_allD y.1 s' gh y.2 [] reqs' now st0 h hadv hnew
 
 end Ggrs
